@@ -6,6 +6,7 @@ Real code: mitmproxy.io.FlowWriter / FilteredFlowWriter / FlowReader (+ tnetstri
 """
 from __future__ import annotations
 
+import datetime as _dt
 import os
 import random
 import shutil
@@ -90,6 +91,11 @@ class _Run:
         self.intern = fg.Interner()
         self.dir = tempfile.mkdtemp(prefix="run-", dir=_scratch())
         self.path = os.path.join(self.dir, "flows.mitm")
+        self.spec = "literal"          # kind of save_stream_file: literal path | strftime pattern
+        self.pattern = os.path.join(self.dir, "flows-100%%-%Y%m%d-%H.mitm")
+        self.clock = _dt.datetime(2020, 1, 1, 10, 0, 0)   # the harness's fake clock behind save.datetime.today()
+        self.files: list[str] = []     # the files of this stream, in the order the harness expects them to be opened
+        self._saved_dt = None
         self.ends: list[int] = []  # record end offsets announced in `written` events
         self.sid_by_flow_id: dict[str, int] = {}
         self.sid_by_state: dict[str, int] = {}
@@ -157,20 +163,67 @@ class _Run:
             self.sa = save.Save()
             self.tctx = taddons.context(self.sa)
 
+    def cur_file(self) -> str:
+        """The file the spec names at the harness's clock (own strftime, not the addon's)."""
+        f = self.path if self.spec == "literal" else self.clock.strftime(self.pattern)
+        if f not in self.files:
+            self.files.append(f)
+        return f
+
+    def _install_clock(self):
+        """save.py reads the wall clock through its module attribute `datetime`; give it the harness's clock."""
+        from mitmproxy.addons import save
+
+        run = self
+
+        class _Clock(_dt.datetime):
+            @classmethod
+            def today(cls):
+                return run.clock
+
+            @classmethod
+            def now(cls, tz=None):
+                return run.clock
+
+        if self._saved_dt is None:
+            self._saved_dt = (save, getattr(save, "datetime", None))
+            save.datetime = _Clock
+
     def stream_open(self, append=False):
-        """Option update save_stream_file = path ("+path" when resuming / appending)."""
+        """Option update save_stream_file = spec ("+spec" when resuming / appending)."""
         self.ensure_addon()
-        self.tctx.configure(self.sa, save_stream_file=("+" if append else "") + self.path)
+        self._install_clock()
+        self.cur_file()
+        spec = self.path if self.spec == "literal" else self.pattern
+        self.tctx.configure(self.sa, save_stream_file=("+" if append else "") + spec)
         self.is_open = True
         self.nopen += 1
 
-    def open(self):
-        if self.is_open:
+    def tick(self):
+        if self.sa is None or self.nopen == 0:
+            return False
+        self.clock = self.clock + _dt.timedelta(hours=1)
+        self._observe_new_records()
+        self.trace.append({"k": "hook", "name": "tick"})
+        self._disk()
+        return True
+
+    def _stream_image(self) -> bytes:
+        out = b""
+        for f in self.files:
+            if os.path.exists(f):
+                with open(f, "rb") as fh:
+                    out += fh.read()
+        return out
+
+    def open(self, spec="literal"):
+        if self.is_open or (self.nopen > 0 and spec != self.spec):
             return False
         resume = self.nopen > 0
+        self.spec = spec
         self.stream_open(append=resume)
         self._observe_new_records()
-        self.trace.append({"k": "hook", "name": "resume" if resume else "open"})
+        self.trace.append({"k": "hook", "name": "resume" if resume else "open", "spec": spec})
         self._disk()
         return True
 
@@ -183,10 +236,9 @@ class _Run:
 
     def _observe_new_records(self):
         """`written` events for the complete records that appeared ON DISK since the last look (reference framing)."""
-        if not os.path.exists(self.path):
-            return
-        with open(self.path, "rb") as fh:
-            image = fh.read()
+        if self.fo is None:
+            self.cur_file()  # a rotation may have happened inside the hook: the file the spec names now is expected
+        image = self._stream_image()
         known = self.ends[-1] if self.ends else 0
         recs, _stop = fg.ref_records(image[known:])
         for a, b in recs:
@@ -203,11 +255,20 @@ class _Run:
             self.trace.append({"k": "written", "s": sid, "t": self.kind_by_flow_id.get(fid, "unknown"), "to": known + b})
 
     def _disk(self):
-        if not os.path.exists(self.path):
-            return
-        with open(self.path, "rb") as fh:
-            ids, end, exc = fg.read_image(fh, self.intern)
-        self.trace.append({"k": "disk", "ids": ids, "end": end, "exc": exc})
+        """What a reader finds on disk right now: the files of the stream in the order they were opened."""
+        self.cur_file()
+        ids, end, exc, seen = [], "clean", "", False
+        for f in self.files:
+            if not os.path.exists(f):
+                continue
+            seen = True
+            with open(f, "rb") as fh:
+                i2, e2, x2 = fg.read_image(fh, self.intern)
+            ids += i2
+            if e2 != "clean" and end != "other":
+                end, exc = e2, x2
+        if seen:
+            self.trace.append({"k": "disk", "ids": ids, "end": end, "exc": exc})
 
     def start(self, kind, hook=True):
         self.ensure_addon()
@@ -275,7 +336,7 @@ class _Run:
         """A complete file written earlier (explicit save); the stream is then opened in append mode."""
         from mitmproxy.io import FlowWriter
 
-        with open(self.path, "wb") as fo:
+        with open(self.cur_file(), "wb") as fo:
             w = FlowWriter(fo)
             for kind in kinds:
                 f = fg.make_flow(kind, self.rng, rich=True, small=True)
@@ -285,7 +346,7 @@ class _Run:
                 self.trace.append({"k": "written", "s": sid, "t": kind, "to": self.ends[-1]})
                 self.trace.append({"k": "finished", "s": sid, "t": kind})
         self.stream_open(append=True)
-        self.trace.append({"k": "hook", "name": "open"})
+        self.trace.append({"k": "hook", "name": "open", "spec": self.spec})
         self._disk()
 
     # -- crash images ------------------------------------------------------------------------------------------
@@ -293,6 +354,8 @@ class _Run:
         """The logical byte stream handed to the file so far (for an explicit save: buffer flushed)."""
         if self.fo is not None and not self.fo.closed:
             self.fo.flush()
+        if self.sa is not None and self.files:
+            return self._stream_image()
         if not os.path.exists(self.path):
             return b""
         with open(self.path, "rb") as fh:
@@ -314,6 +377,10 @@ class _Run:
             if self.tctx is not None:
                 self.tctx.__exit__(None, None, None)
         finally:
+            if self._saved_dt is not None:
+                mod, orig = self._saved_dt
+                if orig is not None:
+                    mod.datetime = orig
             shutil.rmtree(self.dir, ignore_errors=True)
 
 
@@ -324,7 +391,8 @@ class Check(core.PropertyCheck):
     MON = "Mon_FlowCrash"
     REQUIRED_WITNESSES = ("crash_zero", "crash_boundary", "crash_mid", "crash_mid_after_complete", "recover_clean",
                           "recover_fre", "recover_some_then_fre", "disk_check", "disk_with_finished", "stream_finish",
-                          "open", "resume", "start", "early_start", "second_completion", "done") + KINDS
+                          "open", "resume", "start", "early_start", "second_completion", "done", "literal", "pattern",
+                          "tick") + KINDS
     REQUIRED_ACTIONS = ("OpenStream", "Start", "Finish", "Done")  # per model run; the others: see REQUIRED_WITNESSES
     PROCS = 4
     LEVEL_NOTE = ("crash = truncation of the byte stream; the model enumerates framing parts per record, the harness sweeps every byte offset of sampled files; no fsync/torn-block claim")
@@ -347,28 +415,34 @@ class Check(core.PropertyCheck):
 
     def model_constants(self, tier):
         both = frozenset({"save", "stream"})
-        base = {"Modes": both, "MaxOpen": 1, "AllowRefinish": False, "OuterMapped": OUTER_MAPPED}
+        base = {"Modes": both, "MaxOpen": 1, "AllowRefinish": False, "OuterMapped": OUTER_MAPPED,
+                "PathSpecs": frozenset({"literal"}), "MaxRotate": 0}
+        pat = {"PathSpecs": frozenset({"literal", "pattern"}), "MaxRotate": 1}
         if tier == "quick":        # crash half: every framing part of every record; streaming switched on once
             return base | {"Kinds": frozenset(QUICK_KINDS), "MaxFlows": 2, "MaxCrash": 1}
         if tier == "quick_life":   # stream life cycle: early starts, stop + resume, second completion; no crashes
             return base | {"Kinds": frozenset(("httpresp", "tcp")), "Modes": frozenset({"stream"}), "MaxFlows": 2,
                            "MaxCrash": 0, "MaxOpen": 2, "AllowRefinish": True}
+        if tier == "quick_pat":    # strftime pattern as file spec, the clock moves once (rotation); stop + resume
+            return base | {"Kinds": frozenset(("httpresp", "tcp")), "Modes": frozenset({"stream"}), "MaxFlows": 2,
+                           "MaxCrash": 0, "MaxOpen": 2, "PathSpecs": frozenset({"pattern"}), "MaxRotate": 1}
         if tier == "dumped":
             return base | {"Kinds": frozenset(("httpresp", "ws", "tcp", "udp", "dnsresp")), "MaxFlows": 2, "MaxCrash": 1}
         if tier == "life":  # no ws here: Save.error ignores WebSocket flows (they complete with websocket_end only)
             return base | {"Kinds": frozenset(("httpresp", "httperr", "tcp", "udp", "dnsresp")), "Modes": frozenset({"stream"}),
-                           "MaxFlows": 2, "MaxCrash": 0, "MaxOpen": 2, "AllowRefinish": True}
+                           "MaxFlows": 2, "MaxCrash": 0, "MaxOpen": 2, "AllowRefinish": True} | pat
         if tier == "sim":
-            return base | {"Kinds": frozenset(k for k in KINDS if k != "ws"), "MaxFlows": 4, "MaxCrash": 2, "MaxOpen": 2, "AllowRefinish": True}
+            return base | {"Kinds": frozenset(k for k in KINDS if k != "ws"), "MaxFlows": 4, "MaxCrash": 2, "MaxOpen": 2, "AllowRefinish": True} | pat
         if tier == "life_big":     # exhaustive, not dumped
             return base | {"Kinds": frozenset(("httpresp", "tcp", "dnsresp")), "Modes": frozenset({"stream"}), "MaxFlows": 3,
-                           "MaxCrash": 0, "MaxOpen": 2, "AllowRefinish": True}
+                           "MaxCrash": 0, "MaxOpen": 2, "AllowRefinish": True} | pat
         return base | {"Kinds": frozenset(("httpresp", "ws", "tcp", "dnsresp")), "MaxFlows": 3, "MaxCrash": 1}  # not dumped
 
     def model_runs(self, ctx):
         if ctx.quick:
             return [ctx.model_check(self.MODEL, self.model_constants("quick"), dump=True, timeout=900),
-                    ctx.model_check(self.MODEL, self.model_constants("quick_life"), dump=True, timeout=900, tag="_life")]
+                    ctx.model_check(self.MODEL, self.model_constants("quick_life"), dump=True, timeout=900, tag="_life"),
+                    ctx.model_check(self.MODEL, self.model_constants("quick_pat"), dump=True, timeout=900, tag="_pat")]
         big = ctx.model_check(self.MODEL, self.model_constants("thorough"), dump=False, tag="_big")
         small = ctx.model_check(self.MODEL, self.model_constants("dumped"), dump=True, timeout=1500)
         life = ctx.model_check(self.MODEL, self.model_constants("life"), dump=True, timeout=1500, tag="_life")
@@ -385,7 +459,9 @@ class Check(core.PropertyCheck):
             elif name == "SaveClose":
                 ops.append(["save_close"])
             elif name == "OpenStream":
-                ops.append(["open"])
+                ops.append(["open", args[0]])
+            elif name == "Tick":
+                ops.append(["tick"])
             elif name == "Refinish":
                 ops.append(["refinish", args[0]])
             elif name == "Start":
@@ -402,7 +478,10 @@ class Check(core.PropertyCheck):
 
     def scenarios(self, ctx, models):
         rng = random.Random(ctx.seed + 37)
-        behs = models[0].graph.edge_cover(ctx.rng, max_len=16, tail=4) + models[1].graph.edge_cover(ctx.rng, max_len=20, tail=6)
+        behs = models[0].graph.edge_cover(ctx.rng, max_len=16, tail=4)
+        for m in models[1:]:
+            if m.graph is not None:
+                behs += m.graph.edge_cover(ctx.rng, max_len=20, tail=6)
         for b in behs:
             mode, ops = self._ops(b)
             if not ops:
@@ -434,7 +513,8 @@ class Check(core.PropertyCheck):
         # random stream histories: more flows, several active at done, append onto an existing file, random cuts
         for _ in range(120 if ctx.quick else 1500):
             yield core.Scenario({"seed": rng.randrange(1 << 30), "mode": "stream", "random": rng.randint(2, 6),
-                                 "append": rng.random() < 0.3}, source="random")
+                                 "append": rng.random() < 0.3, "spec": rng.choice(["literal", "pattern"])},
+                                source="random")
 
     # ----------------------------------------------------------------------------------------------------------
     def execute(self, sc):
@@ -460,7 +540,10 @@ class Check(core.PropertyCheck):
             elif op[0] == "save_close":
                 run.save_close()
             elif op[0] == "open":
-                if not run.open():
+                if not run.open(op[1] if len(op) > 1 else "literal"):
+                    return
+            elif op[0] == "tick":
+                if not run.tick():
                     return
             elif op[0] == "start":
                 run.start(op[1])
@@ -498,7 +581,7 @@ class Check(core.PropertyCheck):
             if not run.save_cmd(kinds):
                 return
         else:
-            run.open()
+            run.open(sc.get("spec", "pattern"))
             for i, k in enumerate(kinds):
                 run.start(k)
                 run.finish(i + 1)
@@ -517,6 +600,7 @@ class Check(core.PropertyCheck):
         """Random hook histories: flows that start before streaming is enabled or while it is stopped, flows with no
         start hook at all, stop + resume (append), several active flows at a stop, error after response."""
         rng = run.rng
+        run.spec = sc.get("spec", "literal")
         if sc.get("append"):
             run.pre_existing([rng.choice(KINDS) for _ in range(rng.randint(1, 2))])
         n = sc["random"]
@@ -533,6 +617,8 @@ class Check(core.PropertyCheck):
                     choices.append("done")
             elif run.nopen < 3:
                 choices += ["open", "open"]
+            if run.spec == "pattern" and run.nopen > 0 and run.clock.hour < 13:
+                choices.append("tick")
             if not choices:
                 break
             c = rng.choice(choices)
@@ -544,7 +630,9 @@ class Check(core.PropertyCheck):
                 run.start(rng.choice(KINDS), hook=False)
                 run.flows[-1][2] = "early"
             elif c == "open":
-                run.open()
+                run.open(run.spec)
+            elif c == "tick":
+                run.tick()
             elif c == "done":
                 run.done()
             elif c[0] == "finish":
